@@ -75,6 +75,8 @@ def fmt_coord(rng, v, style=None):
         man = f"{q}.{frac}"
     if rng.random() < 0.15 and q >= 1000 and "." not in man:
         man = f"{q:,}"
+    elif "." in man and rng.random() < 0.2:
+        man += "0" * int(rng.integers(1, 9))        # fixed-precision output: surplus zeros
     return man + unit, "unit"
 
 
@@ -123,16 +125,21 @@ def run_mantissa(ctx, shard, util):
                 else:
                     s = f"{q}.{r:03d}".rstrip("0") + unit
                 want = m * mult // 1000
-                n += 1
-                try:
-                    got = util.parse_humanized(s)
-                except Exception as e:  # noqa
-                    got = f"{type(e).__name__}"
-                if got != want:
-                    nbad += 1
-                    if nbad <= 3:
-                        c.fail("coord-scaling-inexact",
-                               f"parse_humanized({s!r}) = {got}, denotes {want}", {"string": s})
+                spellings = [s]
+                if m % 7 == 0:
+                    # fixed-precision spellings ('%.4fk'): zeros padded up to and beyond the unit's exponent
+                    spellings += [f"{q}.{r:03d}" + "0" * z + unit for z in (1, 4, 7)]
+                for s in spellings:
+                    n += 1
+                    try:
+                        got = util.parse_humanized(s)
+                    except Exception as e:  # noqa
+                        got = f"{type(e).__name__}"
+                    if got != want:
+                        nbad += 1
+                        if nbad <= 3:
+                            c.fail("coord-scaling-inexact" + (":zero-padded-mantissa" if s is not spellings[0] else ""),
+                                   f"parse_humanized({s!r}) = {got}, denotes {want}", {"string": s})
         ctx.evaluations += n - 1
         ctx.oracle_evals += n
         ctx.bulk_distinct += n  # enumerated without repetition: distinct by construction
